@@ -185,7 +185,7 @@ func (c *Conn) AsyncRead() {
 					_ = c.closeWithError(err)
 					return
 				}
-				if n < bufLen {
+				if n < bufLen && c.isStream() {
 					break
 				}
 			}
@@ -233,7 +233,7 @@ func (c *Conn) AsyncRead() {
 					_ = c.closeWithError(err)
 					return
 				}
-				if n < bufLen {
+				if n < bufLen && c.isStream() {
 					break
 				}
 			}
@@ -312,6 +312,14 @@ func (c *Conn) doRead(b []byte) (*Conn, int, error) {
 	default:
 	}
 	return c, 0, errors.New("invalid udp conn for reading")
+}
+
+// isStream reports whether a short read means that the receive queue is empty
+// (true for byte streams, not for datagram sockets).
+//
+//go:norace
+func (c *Conn) isStream() bool {
+	return c.typ == ConnTypeTCP || c.typ == ConnTypeUnix
 }
 
 // read from TCP/Unix socket.
